@@ -506,7 +506,14 @@ def od_init(I, ref, o, args, kwargs, node):
 @extern_method(OD, '__setitem__')
 def od_setitem(I, ref, o, args, kwargs, node):
     mref, m = _od_map(I, ref)
+    key = zint(I.int_of(args[0]))
+    was_present = z3.Select(m.dom, key)
     I.store_obj_into_map(mref, args[0], args[1], node)
+    m = I.heap.get(mref)
+    # insertion order (the part of it eviction needs): a key that was NOT present becomes the newest entry
+    # (OrderedDict.__setitem__ appends new keys at the end; an existing key keeps its position)
+    prev = getattr(m, 'newest', None)
+    m.newest = (was_present, key, prev)
     return None
 
 
@@ -537,6 +544,11 @@ def od_popitem(I, ref, o, args, kwargs, node):
         I.raise_builtin('KeyError', node=node)
     k = I.fresh('evicted', 'int')
     I.assume(z3.Select(m.dom, k))
+    nw = getattr(m, 'newest', None)
+    if nw is not None and not (kwargs.get('last', True) is True):
+        # FIFO: the entry appended last is the oldest only when it is the only one
+        was_present, key, _ = nw
+        I.assume(z3.Implies(z3.And(z3.Not(was_present), zint(m.size) > 1), k != key))
     v = I.map_lookup(mref, m, k, node)
     I.map_remove(m, k)
     I.g_evicted = getattr(I, 'g_evicted', []) + [k]
